@@ -60,6 +60,7 @@ class RunInfo:
         storage: str | dict[OUTPUT_TYPE, str],
         cleanup: bool = True,
     ) -> RunInfo:
+        _validate_storage_names(storage)  # before touching the run folder
         run_folder = _maybe_run_folder(run_folder, storage)
         # Include the `internal_shape`s of the functions *before* comparing to the previous run
         internal_shapes = _construct_internal_shapes(internal_shapes, pipeline)
@@ -190,6 +191,12 @@ class RunInfo:
     @staticmethod
     def path(run_folder: str | Path) -> Path:
         return Path(run_folder) / "run_info.json"
+
+
+def _validate_storage_names(storage: str | dict[OUTPUT_TYPE, str]) -> None:
+    """Raise if a storage identifier is unknown."""
+    for name in [storage] if isinstance(storage, str) else storage.values():
+        get_storage_class(name)
 
 
 def _requires_serialization(storage: str | dict[OUTPUT_TYPE, str]) -> bool:
